@@ -140,6 +140,63 @@ def make_request(layout, rid, tag, kind):
     return layout.Request(json.dumps([row]).encode(), encoding, {}, accept)
 
 
+def quiescence(samples=16, pause=0.5):
+    """Is anything of this process tree still working on something?  A logical observation, not a deadline: every thread
+    of this process (but the calling one) and of every descendant (manager, pool and worker processes) is sampled from
+    /proc - its scheduler state and its CPU clock.  -> (quiescent, description): quiescent when in every sample every
+    thread sleeps and the CPU clocks of the whole tree advanced by no more than what idle polling loops cost."""
+    me = os.getpid()
+    mine = threading.get_native_id()
+
+    def snapshot():
+        parents = {}
+        for entry in os.listdir('/proc'):
+            if entry.isdigit():
+                try:
+                    with open(f'/proc/{entry}/stat', encoding='ascii', errors='replace') as fd:
+                        fields = fd.read().rsplit(')', 1)[1].split()
+                    parents[int(entry)] = int(fields[1])
+                except (OSError, IndexError, ValueError):
+                    continue
+        tree = {me}
+        grown = True
+        while grown:
+            grown = False
+            for pid, ppid in parents.items():
+                if ppid in tree and pid not in tree:
+                    tree.add(pid)
+                    grown = True
+        states, ticks = [], 0
+        for pid in tree:
+            try:
+                tasks = os.listdir(f'/proc/{pid}/task')
+            except OSError:
+                continue
+            for tid in tasks:
+                if pid == me and int(tid) == mine:
+                    continue
+                try:
+                    with open(f'/proc/{pid}/task/{tid}/stat', encoding='ascii', errors='replace') as fd:
+                        fields = fd.read().rsplit(')', 1)[1].split()
+                except (OSError, IndexError):
+                    continue
+                states.append(fields[0])
+                ticks += int(fields[11]) + int(fields[12])
+        return len(tree), states, ticks
+
+    busy = 0
+    nproc, _, first = snapshot()
+    last = first
+    for _ in range(samples):
+        time.sleep(pause)
+        nproc, states, last = snapshot()
+        busy += sum(1 for state in states if state not in 'SIZTt')
+    spent = last - first
+    # idle polling (queue.get(timeout=1) in workers, result polling in executors) costs about one 10 ms tick per second for the whole tree; work on a request costs orders of magnitude more
+    quiet = busy == 0 and spent <= samples * pause * 5
+    return quiet, f'{nproc} processes, {busy} running-thread sightings in {samples} samples, {spent} CPU ticks in {samples * pause:.0f}s'
+
+
 async def run_batch(ctx, engine, layout, apps, batch, history):
     """Issue the batch concurrently; history[rid] = dict(call, ret, outcome)."""
     order = []
@@ -324,7 +381,13 @@ def serve_config(ctx, config, index):
                             ctx.violation('request-lost', f'{len(lost)} cold-start requests unanswered although a later flush batch was '
                                           f'served: {lost[:3]}', {'config': config_sig, 'lost': lost[:10]})
                         else:
-                            ctx.inconclusive(f'cold-start batch not answered within {BATCH_WATCHDOG}s and the flush batch hung too')
+                            quiet, seen = quiescence()
+                            if quiet:  # nothing in the whole process tree is working on the requests any more: they are lost
+                                ctx.violation('request-lost-engine-idle', f'{len(lost)} cold-start requests and a later flush batch '
+                                              f'unanswered while every thread of the engine and its pools sleeps ({seen}): {lost[:3]}',
+                                              {'config': config_sig, 'lost': lost[:10]})
+                            else:
+                                ctx.inconclusive(f'cold-start batch not answered within {BATCH_WATCHDOG}s and the flush batch hung too ({seen})')
                         for task in list(pending) + list(stuck):
                             task.cancel()
                         return
@@ -355,7 +418,13 @@ def serve_config(ctx, config, index):
                                               f'served: {lost[:3]}', {'config': config_sig, 'lost': lost[:10],
                                                                       'batch': [list(b) for b in batch][:80]})
                             else:
-                                ctx.inconclusive(f'batch of {size} not answered within {BATCH_WATCHDOG}s and the flush batch hung too')
+                                quiet, seen = quiescence()
+                                if quiet:
+                                    ctx.violation('request-lost-engine-idle', f'{len(lost)} requests and a later flush batch unanswered '
+                                                  f'while every thread of the engine and its pools sleeps ({seen}): {lost[:3]}',
+                                                  {'config': config_sig, 'lost': lost[:10], 'batch': [list(b) for b in batch][:80]})
+                                else:
+                                    ctx.inconclusive(f'batch of {size} not answered within {BATCH_WATCHDOG}s and the flush batch hung too ({seen})')
                             for task in pending:
                                 task.cancel()
                             return
